@@ -87,8 +87,12 @@ def sym_to_expr(e) -> tuple:  # noqa: ANN001, C901, PLR0911, PLR0912
 def expr_is_exact(e: tuple) -> bool:
     """no uninterpreted function (Abs is interpreted by the rational algebra)"""
     k = e[0]
-    if k in ("num", "sym"):
+    if k == "sym":
         return True
+    if k == "num":
+        # a literal like 0.8 (sympy folded 1/(1+1/4)) is a 53-bit dyadic: arithmetic on it rounds in binary64
+        q = e[2]
+        return q.denominator <= 2**20 and abs(q.numerator) < 2**40
     if k == "bin":
         return expr_is_exact(e[2]) and expr_is_exact(e[3])
     if k == "pow":
@@ -157,6 +161,49 @@ def transformed(path: Path) -> dict:
         "rxn": [(k, sym_to_expr(r.expr), [(s, sym_to_expr(c)) for s, c in r.stoichiometry.items()]) for k, r in tm.reactions.items()],
         "ia": [(k, sym_to_expr(v)) for k, v in tm.initial_assignments.items()],
     }
+
+
+def arg_orders(m, tm: dict) -> list[tuple[tuple, list[str]]]:  # noqa: ANN001
+    """[(expression, argument names in the order the implementation enumerated its free symbols)] read off the
+    built Model: every component keeps `args=free_symbols(expr)` of ITS OWN expression (also when the def of
+    that name was overwritten by a colliding one).  Entries whose names are not exactly the expression's
+    symbols are dropped (the Coq side then falls back to occurrence order)."""
+    from mxlpy.types import Derived, InitialAssignment
+
+    out: list[tuple[tuple, list[str]]] = []
+
+    def add(e: tuple, args) -> None:  # noqa: ANN001
+        args = list(args)
+        if set(args) == expr_syms(e) and len(set(args)) == len(args):
+            out.append((e, args))
+
+    try:
+        der = m.get_raw_derived(as_copy=False)
+        rxn = m.get_raw_reactions(as_copy=False)
+        pars = m.get_raw_parameters(as_copy=False)
+        vs = m.get_raw_variables(as_copy=False)
+        for k, e in tm["der"]:
+            if k in der:
+                add(e, der[k].args)
+        for k, e, st in tm["rxn"]:
+            if k in rxn:
+                add(e, rxn[k].args)
+                for sp, c in st:
+                    v = rxn[k].stoichiometry.get(sp)
+                    if isinstance(v, Derived) and c[0] != "sym":
+                        add(c, v.args)
+        for k, e in tm["ia"]:
+            if k in pars and isinstance(pars[k].value, InitialAssignment):
+                add(e, pars[k].value.args)
+            elif k in vs and isinstance(vs[k].initial_value, InitialAssignment):
+                add(e, vs[k].initial_value.args)
+    except Exception:  # noqa: BLE001
+        return []
+    return out
+
+
+def cfs(tab: list[tuple[tuple, list[str]]]) -> str:
+    return clist(f"({cexpr(e)}, {clist(map(cstr, a))})" for e, a in tab)
 
 
 def guards(path: Path) -> tuple[list[str], list[str]]:
@@ -349,7 +396,7 @@ def obs_exact(obs) -> bool:  # noqa: ANN001
             vals += list(args.values()) + list(rhs.values())
         for v in vals:
             f = _fr(v)
-            if abs(f) >= 2**40 or (f.denominator & (f.denominator - 1)) != 0 or f.denominator > 2**40:
+            if abs(f) >= 2**36 or (f.denominator & (f.denominator - 1)) != 0 or f.denominator > 2**36:
                 return False
     except ValueError:
         return False
